@@ -228,6 +228,41 @@ def robust_scenario(rng, tier_quick):
     return {"kind": "R", "cfg": cfg, "extra": extra, "data": data.decode("latin-1"), "size": list(size), "steps": steps}
 
 
+# directed robustness lives: option sets that eat columns / rows (gutter, borders, margins, sections), long lines, and the
+# window shrunk column by column and row by row down to 1x1 and back, with a redraw forced at every size
+SWEEP_OPTS = [["--pointer", ">>", "--marker", ">>"], ["--border", "--margin", "1"], ["--multi", "--marker", ">>", "--pointer", "=>"],
+              ["--padding=1", "--border=double"], ["--margin=1,2", "--padding=1,2"], ["--preview", "echo {}", "--preview-window=right,50%"], ["--info=inline"],
+              ["--layout=reverse", "--header", "H", "--header-lines=1"], ["--no-input"], ["--scrollbar", "|", "--gap"], ["--wrap"],
+              ["--ellipsis", "", "--no-hscroll"], ["--input-border", "--list-border", "--header-border", "--header", "h"],
+              ["--pointer", "", "--marker", ""], ["--keep-right"], ["--layout=reverse-list", "--info=inline-right"],
+              ["--preview", "echo {}", "--preview-window=up,3,border-double", "--border"],
+              ["--ellipsis", "....", "--pointer", "=>"], ["--highlight-line", "--gap", "--multi"], []]
+
+
+def sweep_scenario(rng, k):
+    cfg = {"full": True, "mouse": rng.random() < 0.5, "clear": True}
+    if rng.random() < 0.3:
+        cfg = {"full": False, "mouse": False, "clear": True, "height": rng.choice(["10", "50%", "~5"])}
+    extra = list(SWEEP_OPTS[k % len(SWEEP_OPTS)])
+    extra += ["--bind", "esc:ignore,ctrl-c:ignore,ctrl-g:ignore,ctrl-q:ignore,enter:ignore,ctrl-d:ignore,double-click:ignore,ctrl-z:ignore"]
+    items = [b"L" * 300, b"\xe6\xbc\xa2" * 120, b"short", b"a b c " * 40, b"e\xcc\x81" * 90, b"x"] + [rng.choice(HOSTILE) for _ in range(6)]
+    data = b"".join(i.replace(b"\n", b"") + b"\n" for i in items)
+    widths = [12, 8, 6, 5, 4, 3, 2, 1]
+    heights = [8, 5, 4, 3, 2, 1]
+    steps = []
+    pokes = ["down", "up", "toggle+down", "put(a)", "backward-delete-char", "last", "first", "toggle-preview", "clear-screen"]
+    for w in widths:
+        steps.append(["resize", w, 24])
+        steps.append(["post", rng.choice(pokes)])
+    for h in heights:
+        steps.append(["resize", rng.choice([1, 2, 3, 80]), h])
+        steps.append(["post", rng.choice(pokes)])
+    for (w, h) in [(80, 1), (2, 24), (80, 24), (1, 1), (200, 50)]:
+        steps.append(["resize", w, h])
+        steps.append(["post", rng.choice(pokes)])
+    return {"kind": "R", "cfg": cfg, "extra": extra, "data": data.decode("latin-1"), "size": [80, 24], "steps": steps, "sweep": k % len(SWEEP_OPTS)}
+
+
 def run_robust(ctx, fzf, sid, sc):
     life = TmuxLife(ctx, fzf, sid, sc["cfg"], extra_args=sc["extra"], input_bytes=sc["data"].encode("latin-1"), size=tuple(sc["size"]))
     t = life.t
@@ -269,6 +304,8 @@ def run_robust(ctx, fzf, sid, sc):
                     t.tmux("send-keys", "-t", "s", "-H", *hx)
                 elif kind == "resize":
                     t.resize(st[1], st[2])
+                    # fzf picks the new size up a moment later; without the pause a sweep skips the intermediate sizes
+                    time.sleep(0.2 if "sweep" in sc else 0.03)
             except Infra:
                 if life.gone():
                     break
@@ -376,6 +413,10 @@ def run(ctx):
             scenarios.append(random_scenario(rng))
         for _ in range(ctx.pick(14, 150)):
             scenarios.append(robust_scenario(rng, ctx.quick))
+        # the option sets that eat gutter / border columns (the first five) in every run, the others in rotation
+        ks = list(range(5)) + [5 + (ctx.seed * 5 + j) % (len(SWEEP_OPTS) - 5) for j in range(5)] if ctx.quick else list(range(3 * len(SWEEP_OPTS)))
+        for k in ks:
+            scenarios.append(sweep_scenario(rng, k))
 
     with open(os.path.join(ctx.work, "scenarios.json"), "w") as fh:
         json.dump(scenarios, fh)
